@@ -19,6 +19,7 @@ type LoopInfo struct {
 	Op     token.Token
 	// IndexVal is the term the body sees for phi+Offset.
 	IndexVal *Term
+	swapped  bool
 }
 
 func constInt(v ssa.Value) (int64, bool) {
@@ -49,6 +50,23 @@ func (fr *Frame) Loop(h int) (*LoopInfo, bool) {
 	li := &LoopInfo{Op: cmp.Op}
 	var phi *ssa.Phi
 	x := cmp.X
+	// "bound < phi" is the same test as "phi > bound"
+	if p, ok := cmp.Y.(*ssa.Phi); ok && p.Block() == blk {
+		if _, isPhi := cmp.X.(*ssa.Phi); !isPhi || cmp.X.(*ssa.Phi).Block() != blk {
+			switch cmp.Op {
+			case token.LSS:
+				li.Op = token.GTR
+			case token.LEQ:
+				li.Op = token.GEQ
+			case token.GTR:
+				li.Op = token.LSS
+			case token.GEQ:
+				li.Op = token.LEQ
+			}
+			x = cmp.Y
+			li.swapped = true
+		}
+	}
 	if p, ok := x.(*ssa.Phi); ok && p.Block() == blk {
 		phi = p
 	} else if add, ok := x.(*ssa.BinOp); ok && add.Op == token.ADD {
@@ -62,7 +80,11 @@ func (fr *Frame) Loop(h int) (*LoopInfo, bool) {
 		return nil, false
 	}
 	li.Phi = phi
-	li.Bound = fr.operand(cmp.Y, nil)
+	if li.swapped {
+		li.Bound = fr.operand(cmp.X, nil)
+	} else {
+		li.Bound = fr.operand(cmp.Y, nil)
+	}
 	li.IndexVal = fr.operand(x, nil)
 	// init and step from the phi edges
 	for i, p := range blk.Preds {
